@@ -19,8 +19,8 @@ EXPLANATION = (
     "floats and are outside what this technique can encode.")
 ASSUMPTIONS = ["A1 z3 sound", "A2 numpy object-array semantics (einsum on object arrays = sums of products of cells)",
                "the identity checked is linear in rho, so it is proved for all Hermitian matrices in the box |entries| <= 1, a superset of the density matrices"]
-BOUNDS = {"quick": {"partial trace": "n<=3 qubits, every non-empty proper subset of kept qubits"},
-          "thorough": {"partial trace": "n<=4 qubits, every subset"}}
+BOUNDS = {"quick": {"partial trace": "n<=3 qubits, every non-empty subset of kept qubits, three entry points; trace_out_qubit n<=4 every position"},
+          "thorough": {"partial trace": "n<=4 qubits, every subset; trace_out_qubit n<=5"}}
 OUTSIDE = "fidelity (overlap / Uhlmann branches), sqrtm_psd, trace_distance, Fuchs-van de Graaf bounds, is_pure/is_psd, metric agreement across representations -- NOT decided"
 
 
@@ -57,6 +57,33 @@ class PartialTrace(Harness):
             S.prove(f"reduced-state-entry[{k}]", c)
 
 
+class TraceOutQubit(Harness):
+    """dmf.trace_out_qubit(rho, q) equals the reduced state on all other qubits"""
+
+    def install(self):
+        from symnp import install as sinstall
+        sinstall.install(np_modules=[], int_modules=[], summaries=False)
+
+    def declare(self, S):
+        return declare_rho(S, self.n)
+
+    def body(self, S, spec):
+        import graphiq.backends.density_matrix.functions as dmf
+
+        n, q = self.n, self.q
+        rho = rho_cells(spec["rho"])
+        got = dmf.trace_out_qubit(spec["rho"].copy(), q)
+        if n == 1:
+            tr = rho[0][0] + rho[1][1]
+            S.prove("trace", D.close(np.asarray(got, dtype=object).reshape(-1)[0] if isinstance(got, np.ndarray) else got, tr, 1e-12))
+            return
+        want = D.partial_trace(rho, [k for k in range(n) if k != q], n)
+        K = 1 << (n - 1)
+        S.prove("shape", tuple(np.shape(got)) == (K, K))
+        for k, c in enumerate(D.matrix_close(rho_cells(got), want, 1e-12)):
+            S.prove(f"reduced-state-entry[{k}]", c)
+
+
 def plan(tier):
     q = tier == "quick"
     jobs = []
@@ -69,4 +96,7 @@ def plan(tier):
                 if n <= 3:
                     jobs.append((PartialTrace(n=n, keep=list(keep), api="QuantumState"), {}))
         jobs.append((PartialTrace(n=n, keep=[0] if n > 1 else [0], api="DensityMatrix"), {}))
+    for n in ([1, 2, 3, 4] if q else [1, 2, 3, 4, 5]):
+        for qq in range(n):
+            jobs.append((TraceOutQubit(n=n, q=qq), {}))
     return jobs
